@@ -202,12 +202,15 @@ fn export_once(format: &str, program: &Program, st: &St, disk: &SimDisk) -> (Res
     // the seam still creates the (empty) real file, so the path has to be creatable
     let path = scratch_dir().join(format!("simdisk-out.{format}"));
     let sh = Shared::new(None, false);
+    let _ = std::fs::remove_file(&path);
     let r = with_disk(disk, || match format {
         "json" => st.log().to_json(&path).map_err(|e| format!("{e:#}")),
         "cbor" => st.log().to_cbor(&path).map_err(|e| format!("{e:#}")),
         _ => build_config(program, &sh).to_ron(&path).map_err(|e| format!("{e:#}")),
     });
-    let bytes = disk.state.lock().unwrap().files.get(&path).cloned().unwrap_or_default();
+    // what the path holds on the (real) disk behind the simulated one: accepted bytes are
+    // written through, and an export that writes elsewhere first and renames is read correctly
+    let bytes = std::fs::read(&path).unwrap_or_default();
     (r, bytes)
 }
 
